@@ -14,7 +14,15 @@
 (*             slot_mix (one line per slot, hosts interleaved), node (one  *)
 (*             line per node), expr (host list expression), vnode          *)
 (*             (exec_vnode string), virtual (FORK: nothing is read)        *)
-(*   pseudo    none | login | batch | launch | both : LSF pseudo nodes     *)
+(*   pseudo    none | login | batch | launch | both : LSF pseudo nodes the  *)
+(*             batch system lists but did not give for computing: named    *)
+(*             login* / batch*, or unnamed (launch)                        *)
+(*   pslots    lines each pseudo node has in the host file (1 or more)     *)
+(*   uneven    the last host has one line less than the others (LSF)       *)
+(*   gpusrc    config | GPUS_ON_NODE | JOB_GPUS | STEP_GPUS |              *)
+(*             DEVICE_ORDINAL: where the RM learns the GPUs of a node from *)
+(*             (resource config, or a Slurm environment variable while the *)
+(*             config has no gpus_per_node)                                *)
 (*   style     how an expr is written: list | range | plain                *)
 (*   cores     physical cores of a node,  smt  hardware threads per core   *)
 (*   known     the platform configuration knows the node size (the agent   *)
@@ -56,11 +64,12 @@ Adjacent(hs, n)    == [j \in 1 .. (Len(hs) * n) |-> hs[((j - 1) \div n) + 1]]
 Interleaved(hs, n) == [j \in 1 .. (Len(hs) * n) |-> hs[((j - 1) % Len(hs)) + 1]]
 
 (* ---- how the batch system writes the allocation ------------------------- *)
-PseudoLines(p) == CASE p = "login"  -> <<PLogin>>
+PseudoHosts(p) == CASE p = "login"  -> <<PLogin>>
                     [] p = "batch"  -> <<PBatch>>
                     [] p = "launch" -> <<PLaunch>>
                     [] p = "both"   -> <<PLogin, PBatch>>
                     [] OTHER        -> <<>>
+PseudoLines(p, n) == Adjacent(PseudoHosts(p), n)
 
 \* LSF lists one line per physical core (the RM multiplies by SMT), the other
 \* per-slot files list one line per hardware thread
@@ -68,10 +77,18 @@ SlotsPerHost(in) == IF in.rm = "LSF" THEN in.cores ELSE in.cores * in.smt
 
 Lines(in) ==
   IF in.rm = "FORK" THEN <<>>
-  ELSE PseudoLines(in.pseudo) \o
-       (CASE in.shape = "slot_adj" -> Adjacent(in.hosts, SlotsPerHost(in))
-          [] in.shape = "slot_mix" -> Interleaved(in.hosts, SlotsPerHost(in))
-          [] OTHER                 -> in.hosts)
+  ELSE LET body == CASE in.shape = "slot_adj" -> Adjacent(in.hosts, SlotsPerHost(in))
+                      [] in.shape = "slot_mix" -> Interleaved(in.hosts, SlotsPerHost(in))
+                      [] OTHER                 -> in.hosts
+       IN PseudoLines(in.pseudo, in.pslots) \o
+          (IF in.uneven THEN SubSeq(body, 1, Len(body) - 1) ELSE body)
+
+Count(h, s) == Cardinality({i \in 1 .. Len(s) : s[i] = h})
+
+\* a host file that cannot be interpreted consistently: an unnamed pseudo node
+\* with more than one slot cannot be told from a compute node of another size,
+\* a partially listed host has no place in a uniform pilot
+Uninterpretable(in) == in.rm = "LSF" /\ (in.uneven \/ (in.pseudo = "launch" /\ in.pslots > 1))
 
 (* ---- figures of a node -------------------------------------------------- *)
 NCores(in)  == in.cores * in.smt                  \* hardware threads = core slots of an entry
@@ -116,6 +133,9 @@ FullList(in) == LET hs == AllocHosts(in)
 ExpectError(in) == \/ Req(in) > Len(AllocHosts(in))
                    \/ Req(in) - in.agents - NSvc(in) < 1
 
+\* ... or refuses because the allocation cannot be read
+Refuses(in) == ExpectError(in) \/ Uninterpretable(in)
+
 \* cut to the requested size, the last nodes go to sub-agents, then services
 \* (list.pop order); the rest of the allocation is the backup list
 Partition(full, req, nag, nsv) ==
@@ -148,6 +168,12 @@ EntrySized(e, in) == /\ e.cores = Occ(NCores(in), in.bc)
 Sized(P, in) == LET oc == Occ(NCores(in), in.bc)
                     og == Occ(in.gpn, in.bg)
                 IN \A i \in 1 .. Len(P.nodes) : P.nodes[i].cores = oc /\ P.nodes[i].gpus = og
+
+\* internal consistency of what is offered / written to the registry: every
+\* entry carries exactly cores_per_node usable cores and gpus_per_node usable GPUs
+UsableOf(s) == Cardinality({i \in 1 .. Len(s) : s[i] # "D"})
+InfoAgrees(P, cpn, gpn) == \A i \in 1 .. Len(P.nodes) : /\ UsableOf(P.nodes[i].cores) = cpn
+                                                        /\ UsableOf(P.nodes[i].gpus)  = gpn
 
 Disjoint(P, in) ==
   LET idx(s) == {s[i].index : i \in 1 .. Len(s)}
